@@ -325,7 +325,6 @@ impl HipEstimator {
     }
 }
 
-/// Compute 1 / 2^value (inverse power of 2)
 /// Validates an estimator field (hip_accum, kxq0, kxq1) read from an image.
 ///
 /// These are sums of non-negative terms. A NaN, an infinity or a negative value can only come
@@ -341,6 +340,7 @@ pub(super) fn check_image_field(name: &str, value: f64) -> Result<(), Error> {
     }
 }
 
+/// Compute 1 / 2^value (inverse power of 2)
 #[inline]
 fn inv_pow2(value: u8) -> f64 {
     if value == 0 {
